@@ -7,6 +7,7 @@ mod verif_c11 {
     use super::*;
     use crate::state::verif_rig_state::*;
     use crate::verif_common::*;
+    use std::time::Duration;
 
     static mut NOW_S: u64 = 0;
     fn stub_clock() -> Instant {
@@ -53,7 +54,7 @@ mod verif_c11 {
     // @bounds {pos} and {len}: pos/len < 1000, length known or unknown (a missing length renders as the position), in progress or finished
     #[kani::proof]
     #[kani::unwind(12)]
-    //@STUBS std widthascii
+    //@STUBS std widthascii nofloat
     fn c11_pos_len() {
         let (ps, pos, len) = any_state();
         let which: bool = kani::any();
@@ -72,7 +73,7 @@ mod verif_c11 {
     // @bounds {human_pos} and {human_len}: the public HumanCount formatter applied to position / length-or-position, values < 1000 and the concrete 4- and 7-digit values 1234 / 1234567
     #[kani::proof]
     #[kani::unwind(12)]
-    //@STUBS std widthascii
+    //@STUBS std widthascii nofloat
     fn c11_human_pos_len() {
         let big: u8 = kani::any();
         kani::assume(big < 3);
@@ -100,7 +101,7 @@ mod verif_c11 {
     // @bounds {msg}, {prefix}: current message / prefix from a table of strings (incl. empty); {spinner}: tick string tick % (n-1) while in progress (tick < 8, 3 tick strings), the final tick string once finished
     #[kani::proof]
     #[kani::unwind(12)]
-    //@STUBS std widthascii
+    //@STUBS std widthascii nofloat
     fn c11_msg_prefix_spinner() {
         const T: [&str; 3] = ["", "m", "xyz"];
         let (mut ps, _pos, _len) = any_state();
@@ -144,7 +145,7 @@ mod verif_c11 {
     #[kani::proof]
     #[kani::unwind(12)]
     #[kani::stub(std::time::Instant::now, stub_clock)]
-    //@STUBS std widthascii noweight
+    //@STUBS std widthascii nofloat noweight
     fn c11_time_keys() {
         let (ps, _pos, _len) = any_state();
         let el: u64 = kani::any();
@@ -174,7 +175,7 @@ mod verif_c11 {
     // @bounds unknown keys expand to nothing (no line at all for a template consisting of one unknown key)
     #[kani::proof]
     #[kani::unwind(12)]
-    //@STUBS std widthascii
+    //@STUBS std widthascii nofloat
     fn c11_unknown_key_is_empty() {
         let (ps, _pos, _len) = any_state();
         let lines = render_key("nosuchkey", &ps);
@@ -214,7 +215,7 @@ mod verif_c11 {
     // @bounds a custom key registered with with_key: write() receives the current state (position over u64), its output is the placeholder's expansion; thorough tier because of the hash-map machinery
     #[kani::proof]
     #[kani::unwind(12)]
-    //@STUBS std widthascii
+    //@STUBS std widthascii nofloat
     fn c11_custom_key_sees_current_state() {
         let pos: u64 = kani::any();
         let ps = rig_pstate(pos, None, 0, 0);
